@@ -23,13 +23,15 @@ KINDS = {"main": dict(imports="From SS Require Import Base M_TaskTree.", type="t
 SHARD = 120
 F14 = "F14_sys_task_context_swapped"
 RULE = ("trees: random task trees of depth <= 3 and fan-out <= 3 (<= 40 tasks), every task with 1..3 frames, 0..3 nested "
-        "contexts per frame (nurseries, CancelScope, Lock), parked in the innermost body (sleep_forever / Event.wait) or in "
+        "contexts per frame (nurseries, CancelScope, Lock), parked in the innermost body (sleep_forever / Event.wait / "
+        "to_thread.run_sync of ONE shared function, all tasks carrying one name so that worker-thread names are equal) or in "
         "the innermost nursery's __aexit__ (0..2 already closed nurseries inside), nursery bodies ending in plain statement / "
         "try-except / try-finally / `if c: return K` (c false and c true) / a nested with; both recurse_child_tasks values; "
         "thorough adds a systematic family (context layouts x end shapes x block modes x child counts). chains: every valid "
         "hop string over T (to_thread.run_sync), H (from_thread.run re-entering the host task), S (from_thread.run with "
         "trio_token, system task) up to length M (quick 5, thorough 8) from a task or a foreign thread, parked and observed from "
-        "outside, or observed from inside the innermost task, or parked before the worker thread exists; nurseries with a child "
+        "outside, or observed from inside the innermost task, or parked before the worker thread exists; each hop string also "
+        "with ONE sync and ONE async function at every level (equal worker-thread names); nurseries with a child "
         "in the task segments. distinct = distinct descriptors; non-trivial = model result has a nursery child or frames that "
         "came in through a hop")
 CONFIG = dict(
@@ -81,7 +83,7 @@ def rand_task(rng, depth, maxdepth, fan, budget):
                             c["kids"].append(rand_task(rng, depth + 1, maxdepth, fan, budget))
             ctxs.append(c)
         frames.append({"ctxs": ctxs})
-    task = {"frames": frames, "block": "body", "how": rng.choice(["sleep", "event"]), "closed": 0}
+    task = {"frames": frames, "block": "body", "how": rng.choice(["sleep", "event", "sleep", "event", "thread"]), "closed": 0}
     last = frames[-1]["ctxs"]
     if last and last[-1]["t"] == "n" and last[-1]["kids"] and rng.random() < 0.6:
         task["block"] = "aexit"
@@ -106,7 +108,8 @@ def systematic(stride=1, offset=0):
     n = 0
     grandchild = {"frames": [{"ctxs": [{"t": "n", "kids": [leaf("event")], "end": "tryfin"}]}],
                   "block": "aexit", "how": "sleep", "closed": 0}
-    kid_sets = [[], [leaf()], [leaf("event", 2), grandchild], [leaf(), leaf("event"), leaf("sleep", 2)]]
+    kid_sets = [[], [leaf()], [leaf("event", 2), grandchild], [leaf(), leaf("event"), leaf("sleep", 2)],
+                [leaf("thread"), leaf("thread", 2), leaf("thread")]]
     for layout in LAYOUTS:
         for end in ENDS + ("ifret1",):
             for block in (("body", "sleep", 0), ("body", "event", 0), ("aexit", "sleep", 0), ("aexit", "sleep", 1),
@@ -198,6 +201,9 @@ def chains(rng, maxlen, per):
                     d = {"kind": "chain", "rc": (v % 3 != 2), "start": start, "hops": hops, "end": end,
                          "nurs": [int(rng.random() < 0.6) for _ in range(n)] if v else [1] * n,
                          "deep": [int(rng.random() < 0.4) for _ in range(n)] if v else [0] * n}
+                    if v == 1:
+                        # one sync and one async function at every level (equal worker-thread names)
+                        d.update(shared=True, nurs=[0] * n, deep=[0] * n)
                     if f14(start, hops):
                         # two legs: the property-text oracle under the known-finding signature
                         # (not sent to Coq), and the model-vs-code comparison untagged, so that
@@ -212,6 +218,15 @@ def specials():
     # the shape of test_trio_nursery / test_trio_threads and the two findings' minimal inputs
     yield {"kind": "tree", "rc": True, "root": leaf()}
     yield {"kind": "tree", "rc": False, "root": leaf("event", 3)}
+    # sibling tasks with one name, all parked in to_thread.run_sync(<one function>): every task must
+    # show ITS OWN worker thread's frames (the glue finds the thread by identity of the name object)
+    yield {"kind": "tree", "rc": True, "root": {"frames": [{"ctxs": [
+        {"t": "n", "end": "plain", "kids": [leaf("thread"), leaf("thread"), leaf("thread", 2), leaf("thread")]}]}],
+        "block": "body", "how": "sleep", "closed": 0}}
+    for hops in ("THTH", "THTHT", "TSTS"):
+        n = len(hops) + 1
+        yield {"kind": "chain", "rc": True, "start": "task", "hops": hops, "end": "park", "nurs": [0] * n,
+               "deep": [0] * n, "shared": True}
     yield {"kind": "chain", "rc": True, "start": "task", "hops": "TH", "end": "park", "nurs": [0, 0, 0], "deep": [0, 0, 0]}
     yield {"kind": "chain", "rc": True, "start": "task", "hops": "TH", "end": "inside", "nurs": [0, 0, 0], "deep": [0, 0, 0]}
     yield {"kind": "chain", "rc": True, "start": "thread", "hops": "S", "end": "inside", "nurs": [0, 0], "deep": [0, 0]}
@@ -343,6 +358,8 @@ def direct_oracle(desc, obs):
 
 def _count(task):
     n, aexit, ends = 1, int(task["block"] == "aexit"), set()
+    if task["block"] == "body" and task["how"] == "thread":
+        ends.add("parked in to_thread")
     for fr in task["frames"]:
         for c in fr["ctxs"]:
             if c["t"] == "n":
@@ -366,6 +383,8 @@ def classify(desc, obs):
         labs.append("hops=%d" % len(desc["hops"]))
         labs.append("start:" + desc["start"])
         labs.append("end:" + desc["end"])
+        if desc.get("shared"):
+            labs.append("one sync/async function at every level")
         if desc.get("_sig"):
             labs.append("sig:" + desc["_sig"])
     if obs.get("oracle_known"):
@@ -437,9 +456,48 @@ def extra_legs(tier, seed):
             n_eval += 1
             if msg:
                 viol.append({"what": "extract(current_root_task(), recurse_child_tasks=%s): %s" % (rc, msg), "input": d})
+    # a second trio.run loop alive in another thread: from_thread.run(trio_token=...) must be
+    # followed into the loop the token belongs to (the glue compares runner.trio_token)
+    # (the decoy loop runs in the main thread, whose thread-local dict comes first in Trio's
+    # GLOBAL_RUN_CONTEXT; the observed loop runs in a second thread)
+    import threading
+    from . import c14_gen as G2
+    decoy = {"results": []}
+
+    def observed_loop():
+        try:
+            for start, hops, end in (("thread", "S", "park"), ("task", "TS", "park"), ("task", "TSTS", "inside"),
+                                     ("thread", "STS", "park")):
+                n = len(hops) + 1
+                d = {"kind": "chain", "rc": True, "start": start, "hops": hops, "end": end, "nurs": [1] * n, "deep": [0] * n}
+                try:
+                    obs = G2.run(copy.deepcopy(d))
+                    decoy["results"].append((d, obs.get("oracle")))
+                except BaseException as ex:
+                    decoy["results"].append((d, ["fatal", "run failed: " + repr(ex)]))
+        finally:
+            decoy["token"].run_sync_soon(decoy["stop"].set)
+
+    async def decoy_main():
+        decoy["token"] = trio.lowlevel.current_trio_token()
+        decoy["stop"] = trio.Event()
+        th = threading.Thread(target=observed_loop, daemon=True)
+        th.start()
+        with trio.move_on_after(120):
+            await decoy["stop"].wait()
+
+    trio.run(decoy_main)
+    two_loops = len(decoy["results"])
+    for d, orc in decoy["results"]:
+        if orc:
+            viol.append({"what": "with a second trio.run loop alive in another thread: " + orc[1], "input": d})
+    if two_loops != 4:
+        viol.append({"what": "the two-loops leg did not finish", "input": None})
+    n_eval += two_loops
     viol += UNEXPECTED
     return {"evaluations": n_eval, "violations": viol,
-            "info": {"root_task_leg": "extract(trio.lowlevel.current_root_task()) from a running task of the same run, "
+            "info": {"two_loops_leg": "%d token-hop chains observed while a second trio.run loop was alive in another thread" % two_loops,
+                     "root_task_leg": "extract(trio.lowlevel.current_root_task()) from a running task of the same run, "
                                       "%d extractions compared with Trio's tables for every task of the run" % n_eval,
                      "F14": "F14-shaped chains run twice: leg=spec carries the signature %s and only the property-text oracle "
                             "(its complaint is the KNOWN-FINDING); leg=model is untagged and compares the model (serving task "
